@@ -6,6 +6,9 @@ import (
 
 	"github.com/consensys/gnark/constraint/solver"
 	"github.com/consensys/gnark/frontend"
+	"github.com/consensys/gnark/std/math/bitslice"
+	"github.com/consensys/gnark/std/math/cmp"
+	"github.com/consensys/gnark/std/selector"
 )
 
 // ---- programs emitted by specs/ProgGen.tla ----
@@ -165,6 +168,19 @@ func (c *ProgCircuit) run(api frontend.API) ([]frontend.Variable, error) {
 			}
 			q := PlonkGateCoeffs[ins.N-1]
 			pa.AddPlonkConstraint(a[0], a[1], a[2], q[0], q[1], q[2], q[3], q[4])
+		case "GIsLess":
+			temps = append(temps, cmp.IsLess(api, a[0], a[1]))
+		case "GIsLessEq":
+			temps = append(temps, cmp.IsLessOrEqual(api, a[0], a[1]))
+		case "GMux2", "GMux3", "GMux4", "GMux5":
+			temps = append(temps, selector.Mux(api, a[0], a[1:]...))
+		case "GMap3":
+			temps = append(temps, selector.Map(api, a[0], []frontend.Variable{1, 5, -1}, a[1:4]))
+		case "GDecoder3":
+			temps = append(temps, selector.Decoder(api, 3, a[0])...)
+		case "GPartition":
+			lo, hi := bitslice.Partition(api, a[0], uint(ins.N))
+			temps = append(temps, lo, hi)
 		case "AssertIsEqual":
 			api.AssertIsEqual(a[0], a[1])
 		case "AssertIsDifferent":
@@ -228,6 +244,10 @@ func EvalProg(prog []Instr, asg []*big.Int, mod *big.Int) OracleResult {
 			if nout >= 6 {
 				nout = bitLen(mod) + (nout - 6)
 			}
+		} else if ins.Op == "GDecoder3" {
+			nout = 3
+		} else if ins.Op == "GPartition" {
+			nout = 2
 		} else if isAssert(ins.Op) {
 			nout = 0
 		}
@@ -362,6 +382,52 @@ func EvalProg(prog []Instr, asg []*big.Int, mod *big.Int) OracleResult {
 			acc.Add(acc, n().Mul(big.NewInt(int64(q[3])), n().Mul(a[0], a[1])))
 			acc.Add(acc, big.NewInt(int64(q[4])))
 			res.Ok = red(acc).Sign() == 0
+		case "GIsLess":
+			if a[0].Cmp(a[1]) < 0 {
+				push(big.NewInt(1))
+			} else {
+				push(n())
+			}
+		case "GIsLessEq":
+			if a[0].Cmp(a[1]) <= 0 {
+				push(big.NewInt(1))
+			} else {
+				push(n())
+			}
+		case "GMux2", "GMux3", "GMux4", "GMux5":
+			nin := int64(len(a) - 1)
+			if a[0].IsInt64() && a[0].Int64() < nin {
+				push(n().Set(a[1+a[0].Int64()]))
+			} else {
+				res.Ok = false
+			}
+		case "GMap3":
+			switch {
+			case a[0].Cmp(big.NewInt(1)) == 0:
+				push(n().Set(a[1]))
+			case a[0].Cmp(big.NewInt(5)) == 0:
+				push(n().Set(a[2]))
+			case a[0].Cmp(n().Sub(mod, one)) == 0:
+				push(n().Set(a[3]))
+			default:
+				res.Ok = false
+			}
+		case "GDecoder3":
+			if a[0].IsInt64() && a[0].Int64() < 3 {
+				for k := int64(0); k < 3; k++ {
+					if k == a[0].Int64() {
+						push(big.NewInt(1))
+					} else {
+						push(n())
+					}
+				}
+			} else {
+				res.Ok = false
+			}
+		case "GPartition":
+			lo := n().And(a[0], n().Sub(n().Lsh(one, uint(ins.N)), one))
+			push(lo)
+			push(n().Rsh(a[0], uint(ins.N)))
 		case "AssertIsEqual":
 			res.Ok = a[0].Cmp(a[1]) == 0
 		case "AssertIsDifferent":
